@@ -929,10 +929,16 @@ impl Bgi {
     }
 
     fn find_line(&self, x: i32, y: i32, border: u8) -> Option<LineInfo> {
+        // the scan stays inside the window: the viewport may be larger, and the screen only has the rows of the window
+        if x < 0 || y < 0 || x >= self.window.width || y >= self.window.height {
+            return None;
+        }
+        let right = self.viewport.get_width().min(self.window.width);
+
         // find end pixel
-        let mut endx = self.viewport.get_width();
+        let mut endx = right;
         let mut pos = y * self.window.width + x;
-        for ex in x..self.viewport.get_width() {
+        for ex in x..right {
             let col = self.screen[pos as usize];
             pos += 1;
             if col == border {
